@@ -194,7 +194,14 @@ func (u *Unit) builtin(name string, c *ast.CallExpr, env *Env) []Outcome {
 		case *types.Basic:
 			if t.Info()&types.IsString != 0 {
 				u.D.Fun("str_len", SInt, SStr)
-				return ret(env, Value{App("str_len", SInt, v.Term), intT})
+				// lengths are non-negative, and only the empty string has length 0 (so "len(s) > 0" and "s != \"\"" agree)
+				empty := u.strLit("")
+				ln := App("str_len", SInt, v.Term)
+				if !u.BV {
+					env.assume(le(IntLit(0), ln))
+					env.assume(Same(Same(ln, IntLit(0)), Same(v.Term, empty)))
+				}
+				return ret(env, Value{ln, intT})
 			}
 		case *types.Chan:
 			u.D.Fun("chan_"+name, SInt, SRef)
